@@ -405,11 +405,13 @@ def langfresh(run, fx):
     (a fresh copy per language): an object that lives across iterations carries the overrides of the languages before it."""
     from .util import loop_bodies
     fn = fx.one('graphite2::SillMap::readSill')
+    if len(calls_in(fn, 'graphite2::FeatureRef::applyValToFeature')) < 2:
+        fn = fx.inl(fn)              # the per-language work moved into a helper: look at readSill with its helpers inlined
     lb = loop_bodies(fn)
     n = 0
     for e in calls_in(fn, 'graphite2::FeatureRef::applyValToFeature'):
         n += 1
-        inst = 'language overrides applied to a fresh copy of the defaults @%s' % e['ln']
+        inst = 'language overrides applied to a fresh copy of the defaults @%s%s' % (e['ln'], (' (helper called at %s)' % e['site']) if e.get('site') else '')
         a = fn.strip_all_casts(fn.N(e['args'][1]))
         while a['k'] == 'UnaryOperator' and a.get('op') == '*':
             a = fn.strip_all_casts(fn.N(a['c'][0]))
@@ -421,6 +423,16 @@ def langfresh(run, fx):
             run.broken('LANGMATCH', inst, 'declaration of %s not found' % fn.render(a), fn.loc(e))
             continue
         d, x = decl[0]
+        for _hop in range(4):                 # a reference local (a helper's `Features & feats` after inlining) stands for what it is bound to
+            if not (x.get('t') or '').rstrip().endswith('&'):
+                break
+            b_ = fn.strip_all_casts(fn.N(x['init']))
+            while b_['k'] == 'UnaryOperator' and b_.get('op') == '*':
+                b_ = fn.strip_all_casts(fn.N(b_['c'][0]))
+            nxt = [(d2, x2) for _, d2 in fn.elements() if d2['k'] == 'DeclStmt' for x2 in d2.get('decls', []) if b_['k'] == 'DeclRefExpr' and x2.get('vid') == b_.get('vid')]
+            if len(nxt) != 1 or nxt[0][1].get('init') is None:
+                break
+            d, x = nxt[0]
         cb, db = fn.block_of[e['i']], fn.block_of[d['i']]
         loops = [h for h, body in lb.items() if cb in body]
         outer = max(loops, key=lambda h: len(lb[h])) if loops else None
